@@ -69,6 +69,15 @@ pub fn eval_size(si: usize, st: &mut Stats) -> Result<(), String> {
         if support.is_empty() || support.iter().any(|j| j % sy.blocks != p % sy.blocks) {
             return Err(format!("data codeword {} influences error codewords {:?}; the standard has {} interleaved blocks", p, &support[..support.len().min(12)], sy.blocks));
         }
+        // exactly the error codewords the standard's interleaving gives (reference encoder R1 on R2's layout)
+        let want = crate::refmodel::gf::ec_of_symbol(sy, &d);
+        let want_support: Vec<usize> = (0..want.len()).filter(|j| want[*j] != 0).collect();
+        if support != want_support {
+            return Err(format!(
+                "data codeword {} influences {} error codewords, with {} blocks of {} error codewords the standard gives {}",
+                p, support.len(), sy.blocks, sy.ec_per_block(), want_support.len()
+            ));
+        }
         if support.len() != sy.ec_per_block() {
             // a unit vector times x^k mod g can have zero coefficients, but it never does for these generators at these lengths
             st.count("unit_response_with_zero_coefficient");
